@@ -9,6 +9,7 @@ from ..core import Violation
 from ..eio_client import ClientHarness
 
 PID = 'C08'
+DISC_FAULT = 'application disconnect handler fault'
 KNOWN = set()
 KF_ROOT = 'root-namespace-error-clears-all'
 RULE = ('Model-based stateful testing of Client / AsyncClient on the real '
@@ -64,6 +65,9 @@ def strategy(tier):
         st.fixed_dictionaries({'a': st.just('ok')}),
         st.fixed_dictionaries({'a': st.just('ok')}),
         st.fixed_dictionaries({'a': st.just('err'), 'data': errdata}),
+        # accepted and ended at once (what an always_connect server sends
+        # when its connect handler refuses): CONNECT, then DISCONNECT
+        st.fixed_dictionaries({'a': st.just('ok_then_disc')}),
         st.fixed_dictionaries({'a': st.just('silent')}))
     connect = st.fixed_dictionaries({
         'op': st.just('connect'),
@@ -98,6 +102,10 @@ def strategy(tier):
     return st.fixed_dictionaries({
         'aio': st.booleans(),
         'style': st.sampled_from(['fn', 'class']),
+        # the application's disconnect handler of one namespace raises at
+        # its k-th invocation
+        'disc_fault': st.one_of(st.none(), st.none(), st.fixed_dictionaries({
+            'ns': nsi, 'k': st.integers(0, 2)})),
         'ops': st.lists(op, min_size=3, max_size=40 if big else 18)})
 
 
@@ -118,7 +126,24 @@ def _run(case, h):
     armed = {}      # namespace -> fault mode of its next connect handler
     chf_on = [False]
 
+    dfault = case.get('disc_fault')
+    dcount = {}
+
     def rec(kind, ns):
+        if kind == 'disconnect':
+            def fd(*a):
+                log.append((kind, ns, a))
+                n = dcount.get(ns, 0)
+                dcount[ns] = n + 1
+                if dfault and NSS[dfault['ns']] == ns and n == dfault['k']:
+                    labels['disconnect_handler_raises'] = True
+                    raise RuntimeError(DISC_FAULT)
+            if not aio:
+                return fd
+
+            async def afd(*a):
+                return fd(*a)
+            return afd
         if kind != 'connect':
             def f(*a):
                 log.append((kind, ns, a))
@@ -223,18 +248,52 @@ def _run(case, h):
             return
         if not model['engine']:
             return
-        if ans['a'] == 'ok':
+        if ans['a'] in ('ok', 'ok_then_disc'):
             sid_ctr[0] += 1
             sid = 'sid-%d' % sid_ctr[0]
             nlog = len(log)
-            for f in wire.frames(wire.CONNECT, ns, None, {'sid': sid}):
-                h.deliver(f)
+            together = ans['a'] == 'ok_then_disc' and aio
+            if together:
+                # both packets are read back to back, before the task that
+                # waits in connect() runs again
+                from engineio import packet as ep
+                for f in wire.frames(wire.CONNECT, ns, None, {'sid': sid}) \
+                        + wire.frames(wire.DISCONNECT, ns):
+                    h.loop.spawn(h.eio._receive_packet(
+                        ep.Packet(ep.MESSAGE, f)))
+                h.loop.run_until_idle()
+            else:
+                for f in wire.frames(wire.CONNECT, ns, None, {'sid': sid}):
+                    h.deliver(f)
             model['accepted'][ns] = sid
             model['ever_accepted'] = True
             new = [e for e in log[nlog:] if e[0] == 'connect']
             if [(e[1], e[2]) for e in new] != [(ns, ())]:
                 raise Violation('connect-handler', 'after CONNECT on %s: %r'
                                 % (ns, log[nlog:]))
+            if ans['a'] == 'ok_then_disc':
+                if not together:
+                    nlog = len(log)
+                    for f in wire.frames(wire.DISCONNECT, ns):
+                        h.deliver(f)
+                model['accepted'].pop(ns, None)
+                model['clean'] = False
+                labels['accepted_then_ended_at_once'] = True
+                labels['nontrivial'] = True
+                newd = [e[1] for e in log[nlog:] if e[0] == 'disconnect']
+                if newd != [ns]:
+                    raise Violation(
+                        'disconnect-handler-missing' if not newd else
+                        'disconnect-handler-unexpected',
+                        'server ended %s right after accepting it: '
+                        'disconnect handlers ran for %r' % (ns, newd))
+                if ns in sio.namespaces:
+                    raise Violation('namespaces-mismatch', 'server ended %s '
+                                    'right after accepting it, the client '
+                                    'still lists %r' % (ns, dict(
+                                        sio.namespaces)))
+                if h.eio.state != 'connected':
+                    end_model()
         else:
             nlog = len(log)
             others = [n for n in model['accepted'] if n != ns]
@@ -555,9 +614,10 @@ def _run(case, h):
             probe(k)
     except _Stop:
         pass
-    # the injected handler fault is the application's own
+    # the injected handler faults are the application's own
     h.bg_errors[:] = [e for e in h.bg_errors
-                      if 'application connect handler fault' not in str(e)]
+                      if 'application connect handler fault' not in str(e)
+                      and DISC_FAULT not in str(e)]
     if h.bg_errors:
         raise Violation('message-handler-raised', repr(h.bg_errors[0]))
     return labels
